@@ -61,8 +61,8 @@ impl Prop for C14 {
     }
 
     fn strategy(_profile: &str) -> BoxedStrategy<SimCase> {
-        (trace(120), delay(), any::<bool>(), any::<bool>(), seed())
-            .prop_map(|(trace, delay_ns, hand_queue, long, seed)| {
+        (trace(120), delay(), any::<bool>(), any::<bool>(), seed(), text_extras())
+            .prop_map(|(trace, delay_ns, hand_queue, long, seed, (pad_lines, line_style))| {
                 let n = trace.len();
                 SimCase {
                     trace,
@@ -78,6 +78,8 @@ impl Prop for C14 {
                     only_client: false,
                     only_network: false,
                     hand_queue,
+                    pad_lines,
+                    line_style,
                 }
             })
             .boxed()
@@ -106,6 +108,8 @@ impl Prop for C14 {
         }
         if c.hand_queue {
             obs.hit("hand_built_queue");
+        } else if !c.pad_lines.is_empty() {
+            obs.hit("input_with_ignored_padding_lines");
         }
         // both directions busy for more than a second
         let span = c.trace.last().map(|x| x.0).unwrap_or(0);
@@ -194,7 +198,7 @@ impl Prop for C14 {
     }
 
     fn required_classes() -> Vec<&'static str> {
-        vec!["burst_of_equal_timestamps", "eleven_packets_within_100ms", "zero_delay", "hand_built_queue", "sustained_two_way_traffic_over_a_second"]
+        vec!["burst_of_equal_timestamps", "eleven_packets_within_100ms", "zero_delay", "hand_built_queue", "sustained_two_way_traffic_over_a_second", "input_with_ignored_padding_lines"]
     }
 
     fn assumptions() -> Vec<&'static str> {
